@@ -162,6 +162,34 @@ class _TracedText(io.TextIOWrapper):
         return r
 
 
+class _TracedBin(io.BufferedWriter):
+    """A binary file opened for writing (shutil copies, ...): its close is a boundary, too."""
+    _vf_path = None
+    _vf_closed = False
+
+    def close(self):
+        global _busy
+        if self._vf_closed or self._vf_path is None or _busy:
+            return super().close()
+        self._vf_closed = True
+        _busy = True
+        try:
+            if (_crash_at is not None and _n + 1 == _crash_at and
+                    _partial is not None):
+                super().flush()
+                os.ftruncate(self.fileno(), _partial)
+            boundary('close', 'before', self._vf_path)
+        finally:
+            _busy = False
+        r = super().close()
+        _busy = True
+        try:
+            boundary('close', 'after', self._vf_path)
+        finally:
+            _busy = False
+        return r
+
+
 _orig_open = builtins.open
 
 
@@ -171,6 +199,20 @@ def _open(file, mode='r', buffering=-1, encoding=None, errors=None,
     textwrite = ('b' not in mode and any(c in mode for c in 'wax+') and
                  buffering == -1 and opener is None and closefd)
     ap = _watched(file) if textwrite and not _busy else False
+    binwrite = ('b' in mode and any(c in mode for c in 'wax') and '+' not in mode and
+                buffering == -1 and opener is None and closefd and not _busy)
+    if binwrite:
+        bp = _watched(file)
+        if bp:
+            raw = io.FileIO(file, mode.replace('b', ''))      # audit 'open' fires here
+            _busy = True
+            try:
+                boundary('open', 'after', bp)
+            finally:
+                _busy = False
+            f = _TracedBin(raw)
+            f._vf_path = bp
+            return f
     if not ap:
         return _orig_open(file, mode, buffering, encoding, errors, newline,
                           closefd, opener)
